@@ -151,8 +151,23 @@ pub fn run_meta_check(id: &str, tier: &str, seed: u64) -> i32 {
         "C17" => report::par_acc(n, |r| sa_meta::run_c17(seed, r)),
         _ => report::par_acc(n, |r| sa_meta::run_c16(seed, r)),
     };
+    let mut flood_notes: Vec<String> = vec![];
     if id == "C17" {
         minimise_all(&mut acc, |v| sa_meta::minimise_c17(v));
+        // flood stage (after minimisation: its scenario is a count, not a step list)
+        for kind in ["blank", "unknown"] {
+            for n in if tier == "quick" { vec![30_000usize] } else { vec![30_000usize, 120_000] } {
+                let (status, v) = sa_meta::flood_stage(n, kind, 120);
+                acc.evals += 1;
+                if status == "ok" {
+                    acc.add(&format!("fault_fired:{}_line_flood_lines", kind), n as u64);
+                }
+                flood_notes.push(format!("{} {} lines: {}", n, kind, status));
+                if let Some(v) = v {
+                    acc.violate(v);
+                }
+            }
+        }
     } else {
         minimise_all(&mut acc, |v| sa_meta::minimise_c16(v));
     }
@@ -176,6 +191,7 @@ pub fn run_meta_check(id: &str, tier: &str, seed: u64) -> i32 {
     let mut extra = Map::new();
     extra.insert("runs".into(), json!(n));
     if id == "C17" {
+        extra.insert("flood_stage".into(), json!({"what": "simulated session uci, isready, N blank lines (and again with N unknown lines `xyzzy 42`), isready, quit run in a child process of the harness (a stack overflow aborts the process it happens in); only a positively identified stack overflow or a lifecycle violation reported by the child is a verdict, anything else (time limit, spawn failure) is inconclusive", "results": flood_notes}));
         extra.insert("exhaustive_note".into(), json!("EOF at command boundaries is enumerated exhaustively for each generated script; scripts and noise placement are sampled"));
     }
     report::finish_check(&meta, &acc, t0.elapsed().as_secs_f64(), extra)
